@@ -121,6 +121,18 @@ def ceil (x : F64) : F64 := neg (floor (neg x))
 
 def trunc (x : F64) : F64 := if x.signbit then ceil x else floor x
 
+/-- integers `(X, Y)` with `Y > 0` and `X / Y = x / y` (for `y ≠ 0`): common exponent, sign moved to `X` -/
+def ratioInts (dx dy : Dy) : Int × Int :=
+  let p : Int × Int :=
+    if dx.e ≥ dy.e then (Dy.shl dx.m (dx.e - dy.e), dy.m) else (dx.m, Dy.shl dy.m (dy.e - dx.e))
+  if p.2 < 0 then (-p.1, -p.2) else p
+
+/-- nearest integer to `X / Y` (`Y > 0`), ties to even -/
+def nearestEven (X Y : Int) : Int :=
+  let q := X / Y           -- floor
+  let r := X - q * Y       -- in [0, Y)
+  if 2 * r < Y then q else if 2 * r > Y then q + 1 else (if q % 2 = 0 then q else q + 1)
+
 /-- IEEE `remainder(x, y)`: `x − n·y`, `n` the nearest integer to `x/y` (ties to even); exact. -/
 def remainder (x y : F64) : F64 :=
   match x, y with
@@ -131,15 +143,7 @@ def remainder (x y : F64) : F64 :=
   | .fin sx _ _, .fin _ my _ =>
     if my == 0 then .nan else
     let dx := x.toDy; let dy := y.toDy
-    -- n = roundEven (x / y) computed exactly with rationals: x/y = (mx 2^ex)/(my 2^ey)
-    -- bring to common exponent: X, Y integers with x/y = X/Y
-    let (X, Y) : Int × Int :=
-      if dx.e ≥ dy.e then (Dy.shl dx.m (dx.e - dy.e), dy.m) else (dx.m, Dy.shl dy.m (dy.e - dx.e))
-    -- make Y positive
-    let (X, Y) := if Y < 0 then (-X, -Y) else (X, Y)
-    let q := X / Y           -- floor
-    let r := X - q * Y       -- in [0, Y)
-    let n := if 2 * r < Y then q else if 2 * r > Y then q + 1 else (if q % 2 = 0 then q else q + 1)
+    let n := nearestEven (ratioInts dx dy).1 (ratioInts dx dy).2
     let res := Dy.sub dx (Dy.mul (Dy.ofInt n) dy)
     if res.m = 0 then .fin sx 0 0 else ofDy res
 
@@ -148,13 +152,7 @@ def remquoN (x y : F64) : Int :=
   match x, y with
   | .fin .., .fin _ my _ =>
     if my == 0 then 0 else
-    let dx := x.toDy; let dy := y.toDy
-    let (X, Y) : Int × Int :=
-      if dx.e ≥ dy.e then (Dy.shl dx.m (dx.e - dy.e), dy.m) else (dx.m, Dy.shl dy.m (dy.e - dx.e))
-    let (X, Y) := if Y < 0 then (-X, -Y) else (X, Y)
-    let q := X / Y
-    let r := X - q * Y
-    if 2 * r < Y then q else if 2 * r > Y then q + 1 else (if q % 2 = 0 then q else q + 1)
+    nearestEven (ratioInts x.toDy y.toDy).1 (ratioInts x.toDy y.toDy).2
   | _, _ => 0
 
 /-- comparisons (false on NaN) -/
